@@ -167,3 +167,35 @@ func VerifH_C05_Truncations() {
 	vrt.Reach("c05.truncations." + grammarNames[g])
 	compileTotal(g, text, "c05.cut["+grammarNames[g]+"]")
 }
+
+// VerifH_C05_CustomFns: the path_eval constructor that hands unknown function names to a
+// caller-supplied checker, followed by further compiles: every constructor call must
+// return (machine xor error) — also the ones AFTER a call that went through the checker.
+func VerifH_C05_CustomFns() {
+	known := vrt.Bool("checker-knows-the-function")
+	checker := func(name string) (*xpath.Symbol, bool) {
+		if known && name == "my-fn" {
+			return xpath.NewDummyFnSym(name), true
+		}
+		return nil, false
+	}
+	first := []string{"my-fn(a)", "other-fn(a) = 1", "count(a) + my-fn(b)", "my-fn(a) and other-fn(b)"}[vrt.Choice("first", 4)]
+	var m1, m2, m3 *xpath.Machine
+	var e1, e2, e3 error
+	ok, ptxt := vrt.NoPanic(func() {
+		m1, e1 = path_eval.NewPathEvalMachineWithCustomFns(first, c02MapFn, "loc", checker)
+		m2, e2 = NewExprMachine("count(a) > 0", c02MapFn)
+		m3, e3 = path_eval.NewPathEvalMachineWithCustomFns("not(a)", c02MapFn, "loc", checker)
+	})
+	vrt.Reach("c05.customfns")
+	if !ok {
+		vrt.Observe("panic", ptxt)
+	}
+	vrt.Assert(ok, "c05.customfns.no-panic")
+	if !ok {
+		return
+	}
+	vrt.Assert((m1 != nil) != (e1 != nil), "c05.customfns.first.machine-xor-error")
+	vrt.Assert(m2 != nil && e2 == nil, "c05.customfns.later-compile-unaffected")
+	vrt.Assert(m3 != nil && e3 == nil, "c05.customfns.later-custom-compile-unaffected")
+}
